@@ -304,4 +304,4 @@ def check_refusal_is_broken_pipe(facts, rep, crate, rid):
                 rep.ok(rid, key, where, "refused write -> Err(BrokenPipe)")
             else:
                 rep.bad(rid, key, where, "no return is reached on the refusal edge of the credit take")
-    rep.floor(rid, "write entry points that can be refused", k, 3 if "std" in crate.features else 1)
+    rep.floor(rid, "write entry points that can be refused", k, 3 if "std" in crate.features else 0)  # no io::Error without std
